@@ -57,6 +57,7 @@ func l1list(xs []string) {
 }
 
 func normalizeOp(o *Op) {
+	o.Key = l1dec(o.Key)
 	o.Pat, o.Path, o.Method, o.Host, o.Prefix, o.Body, o.Val = l1dec(o.Pat), l1dec(o.Path), l1dec(o.Method), l1dec(o.Host), l1dec(o.Prefix), l1dec(o.Body), l1dec(o.Val)
 	l1list(o.Methods)
 	l1list(o.Domains)
